@@ -31,8 +31,12 @@ impl RE {
       RE::New => Rope::new(),
       RE::From(p) => Rope::from(PIECES[*p]),
       RE::Iter(ps) => ps.iter().map(|p| PIECES[*p]).collect::<Rope<'static>>(),
-      RE::Add(e, p) => { let mut r = e.build()?; r.add(PIECES[*p]); r }
-      RE::Append(a, b) => { let mut r = a.build()?; r.append(b.build()?); r }
+      // every second `add` / `append` happens while a clone of the receiver is alive (shared piece list: seed S119); the clone must
+      // not change
+      RE::Add(e, p) => { let mut r = e.build()?; let keep = if *p % 2 == 0 { Some((r.clone(), r.to_string())) } else { None }; r.add(PIECES[*p]);
+        if let Some((k, t)) = keep { if k.to_string() != t || k.len() != t.len() { return Err("clone-changed-by-add".into()) } } r }
+      RE::Append(a, b) => { let mut r = a.build()?; let keep = if a.steps() % 2 == 0 { Some((r.clone(), r.to_string())) } else { None }; r.append(b.build()?);
+        if let Some((k, t)) = keep { if k.to_string() != t || k.len() != t.len() { return Err("clone-changed-by-append".into()) } } r }
       RE::Slice(e, a, b) => { let r = e.build()?; catch(|| r.get_byte_slice(*a..*b)).map_err(|m| panic_kind(&m).to_string())?.ok_or("slice".to_string())? }
       RE::Line(e, k) => { let r = e.build()?; let l = catch(|| r.lines().nth(*k)).map_err(|m| panic_kind(&m).to_string())?; l.ok_or("noline".to_string())? }
     })
@@ -67,6 +71,17 @@ pub fn flat_lines(s: &str) -> Vec<String> {
   if s.is_empty() || s.ends_with('\n') { v.push(String::new()); }
   v
 }
+/// strings with the byte length of `s` that differ from it: each two-byte char replaced by "zz", each pair of ASCII chars by "é"
+fn same_len_variants(s: &str) -> Vec<String> {
+  let mut v = vec![];
+  let cs: Vec<(usize, char)> = s.char_indices().collect();
+  for (k, (i, c)) in cs.iter().enumerate() {
+    if c.len_utf8() == 2 { let mut t = String::from(&s[..*i]); t.push_str("zz"); t.push_str(&s[*i + 2..]); if t != s { v.push(t); } }
+    if c.len_utf8() == 1 && k + 1 < cs.len() && cs[k + 1].1.len_utf8() == 1 { let mut t = String::from(&s[..*i]); t.push('é'); t.push_str(&s[*i + 2..]); v.push(t); }
+    if v.len() >= 6 { break }
+  }
+  v
+}
 fn b(x: bool) -> &'static str { if x { "1" } else { "0" } }
 
 pub fn obs_impl(r: &Rope) -> String {
@@ -77,6 +92,11 @@ pub fn obs_impl(r: &Rope) -> String {
   let lines: Vec<String> = r.lines().map(|l| hx(l.to_string().as_bytes())).collect();
   let slices: Vec<String> = (0..len + 2).map(|a| (0..len + 2).map(|e| match catch(|| r.get_byte_slice(a..e)) { Ok(Some(x)) => hx(x.to_string().as_bytes()), Ok(None) => "-".into(), Err(m) => if m.contains("unsafe precondition") { "U".into() } else { "!".into() } }).collect::<Vec<_>>().join(",")).collect();
   let eqstr = match catch(|| *r == text.as_str() && *r == *text.as_str()) { Ok(x) => b(x).to_string(), Err(_) => "panic".into() };
+  // strings of the same byte length that differ from the text (a two-byte char where two one-byte chars were, and the other way
+  // round), through both `PartialEq<&str>` and `PartialEq<str>` (seed S120): never equal, never a panic
+  for alt in same_len_variants(&text) {
+    match catch(|| (*r == alt.as_str()) || (*r == *alt.as_str())) { Ok(false) => {}, Ok(true) => return "eq-same-length-variant-true".into(), Err(_) => return "eq-same-length-variant-panic".into() }
+  }
   if r.to_bytes().as_ref() != text.as_bytes() { return "to_bytes-differs".into() }
   // the other `RangeBounds` forms and the panicking accessors have to agree with the half-open form (C16 lists byte/get_byte and byte_slice)
   let sl = |x: Option<Rope>| x.map(|y| y.to_string());
